@@ -160,7 +160,7 @@ theorem maskOccurences_closed (rows : CRows) (L : Int) (alphabet : Nat) (refseq 
     ∃ rep0 refs, repChar alphabet mr = some rep0 ∧
       (if refseq != "" then (rows.find? fun r => r.1 == refseq).map Prod.snd else some []) = some refs ∧
       out = rows.map fun r => (r.1, (List.range L.toNat).map fun i => maskOccCell rows refseq refs maxOcc mr rep0 i r) := by
-  unfold maskOccurences at h
+  unfold maskOccurences maskOccWithRef at h
   split at h
   · cases h
   · rename_i rep0 hrep
